@@ -19,7 +19,7 @@ missing=[t for t in sp if res.get(t)!='pass']
 print(len([1 for v in res.values() if v=='pass']), len(missing), missing[:3])
 EOF
 ); echo "pass/missing: $PASS"; rm -f OUT/suite.json
-echo "== demo without change (expect 0)"; git stash -q -- . ':!OUT' 2>/dev/null || git stash -q; (cd "$WT" && timeout 900 bash OUT/demo/run.sh >OUT/demo_without.log 2>&1); RC0=$?; git stash pop -q; echo "rc=$RC0"
+echo "== demo without change (expect 0)"; git diff -- . ':!OUT' > OUT/.cur.diff; git apply -R OUT/.cur.diff; (cd "$WT" && timeout 900 bash OUT/demo/run.sh >OUT/demo_without.log 2>&1); RC0=$?; git apply OUT/.cur.diff; rm -f OUT/.cur.diff; echo "rc=$RC0"
 git diff --stat -- . ':!OUT' | tail -1
 for C in "$@"; do
   echo "== /verif check $C against the change"
